@@ -220,3 +220,79 @@ pub fn fold(n: usize, k: usize, buf: usize, seed: u64) -> Verdict {
     }
     Verdict::Hold
 }
+
+/// Keys derived from one another interoperate: the time key recovered from a streaming key
+/// (`as_committer_key`), the verifier key derived from the streaming key, `batch_commit` on both sides,
+/// `index_by`, and the additive structure of evaluation proofs.
+pub fn key_interop(n: usize, seed: u64) -> Verdict {
+    let delta = sym_nonzero("delta");
+    let (ck, _) = keys(n + 2, 2, seed);
+    let cks = CommitterKeyStream::from(&ck);
+    let f: Vec<SF> = (0..n).map(|j| sym(&format!("f{}", j))).collect();
+    let g: Vec<SF> = (0..n).map(|j| sym(&format!("g{}", j))).collect();
+    let a = sym("alpha");
+    // the streaming key turned back into a time key for n coefficients commits and opens like the original
+    let ck2 = cks.as_committer_key(n);
+    if ck2.commit(&f) != ck.commit(&f) {
+        return Verdict::viol("as-committer-key", format!("as_committer_key({}) commits differently from the key the stream was made from", n));
+    }
+    let (ev, pf) = ck.open(&f, &a);
+    let (ev2, pf2) = ck2.open(&f, &a);
+    if ev != ev2 || pf != pf2 {
+        return Verdict::viol("as-committer-key", "as_committer_key opens differently from the key the stream was made from");
+    }
+    // the verifier key derived from the streaming key decides like the one derived from the time key
+    let vks = VerifierKey::from(&cks);
+    let c = ck.commit(&f);
+    if vks.verify(&c, &a, &ev, &pf).is_err() {
+        return Verdict::viol("stream-verifier-key", "the verifier key derived from the streaming key rejects an honest proof");
+    }
+    if vks.verify(&c, &a, &(ev + delta), &pf).is_ok() {
+        return Verdict::viol("stream-verifier-key", "the verifier key derived from the streaming key accepts f(alpha)+delta");
+    }
+    // batch_commit == element-wise commit, time and space
+    let bc = ck.batch_commit(vec![f.clone(), g.clone()]);
+    if bc.len() != 2 || bc[0] != ck.commit(&f) || bc[1] != ck.commit(&g) {
+        return Verdict::viol("batch-commit", "time batch_commit differs from element-wise commit");
+    }
+    {
+        let (mut rf, mut rg) = (f.clone(), g.clone());
+        rf.reverse();
+        rg.reverse();
+        let (sf, sg) = (rf.as_slice(), rg.as_slice());
+        type It<'a> = &'a dyn Iterable<Item = &'a SF, Iter = core::slice::Iter<'a, SF>>;
+        let _ = |x: It| x.len();
+        if cks.commit(&sf) != bc[0] || cks.commit(&sg) != bc[1] {
+            return Verdict::viol("batch-commit", "space commitments differ from the time batch_commit");
+        }
+    }
+    // index_by: the key whose i-th element is the sum of the powers j with indices[j] = i commits a vector c to
+    // what the original key commits the expanded vector (c[indices[j]])_j to
+    let m = core::cmp::min(n, 3);
+    let idx: Vec<usize> = (0..n).map(|j| (j * 2 + 1) % m).collect();
+    let cv: Vec<SF> = (0..m).map(|j| sym(&format!("c{}", j))).collect();
+    let expanded: Vec<SF> = idx.iter().map(|i| cv[*i]).collect();
+    if ck.index_by(&idx).commit(&cv) != ck.commit(&expanded) {
+        return Verdict::viol("index-by", "index_by key does not commit c to the commitment of (c[indices[j]])_j");
+    }
+    // evaluation proofs add: pi_f + pi_g is the proof for f + g at the same point; Sum agrees with +
+    let (_, pg) = ck.open(&g, &a);
+    let fg: Vec<SF> = f.iter().zip(g.iter()).map(|(x, y)| *x + *y).collect();
+    let (_, pfg) = ck.open(&fg, &a);
+    if pf.clone() + pg.clone() != pfg {
+        return Verdict::viol("proof-add", "the sum of two evaluation proofs at one point is not the proof of the sum");
+    }
+    let summed: ark_poly_commit::streaming_kzg::EvaluationProof<ToyPairing> = vec![pf.clone(), pg.clone()].into_iter().sum();
+    if summed != pfg {
+        return Verdict::viol("proof-add", "Sum over evaluation proofs differs from +");
+    }
+    let empty: ark_poly_commit::streaming_kzg::EvaluationProof<ToyPairing> = Vec::new().into_iter().sum();
+    if empty.clone() + pf.clone() != pf {
+        return Verdict::viol("proof-add", "the empty sum of evaluation proofs is not the identity");
+    }
+    use ark_serialize::CanonicalSerialize;
+    if c.size_in_bytes() != crate::engine::grp::TA::<1>(SF::zero()).serialized_size(ark_serialize::Compress::Yes) {
+        return Verdict::viol("commitment-size", "Commitment::size_in_bytes is not the compressed size of a G1 element");
+    }
+    Verdict::Hold
+}
